@@ -195,6 +195,8 @@ def main(argv: list[str]) -> int:
     for info in known_seen.values():
         print(f"KNOWN-FINDING: property={prop} {info['what']}  (observed {info['n']}x this run)")
     (VERIF / "replays").mkdir(exist_ok=True)
+    for old in (VERIF / "replays").glob(f"{prop}-*.json"):
+        old.unlink()
     seen_keys = set()
     n_reported = 0
     for v in unknown:
